@@ -81,6 +81,14 @@ class Probe(object):
             raise GlomError('probe%d refuses' % self.n)
         if b == 'valueerror':
             raise ValueError('probe%d fails' % self.n)
+        if b == 'keyerror':
+            raise KeyError('probe%d key' % self.n)              # KeyError has its own __str__
+        if b == 'oserror':
+            raise FileNotFoundError(2, 'probe%d file' % self.n)  # so has OSError
+        if b == 'cyclic':
+            lst = [Named('c%d' % self.n)]
+            lst.append(lst)
+            return lst
         if b == 'list':
             return Named('L%d' % self.n, [Named('item%d_a' % self.n), Named('item%d_b' % self.n)])
         if b == 'long':
@@ -142,8 +150,8 @@ def gen_spec(draw, d, must_fail, counter):
                 # without evaluating anything else (Check after its sub-spec, a T index that is missing)
                 return [draw(S_(['checkrec', 'tindexrec'])), n, [['fail', 'path', n + 500], ['fail', 'tstep', n + 501]][:draw(st.integers(1, 2))],
                         draw(S_(['const', 'factory', 'spec']))]
-            return ['fail', draw(S_(['path', 'tstep', 'glomerror', 'valueerror', 'check', 'match', 'sunbound', 'path', 'tstep'])), n]
-        return ['ok', draw(S_(['plain', 'plain', 'plain', 'long', 'unicode', 'clone'])), n]
+            return ['fail', draw(S_(['path', 'tstep', 'glomerror', 'valueerror', 'check', 'match', 'sunbound', 'path', 'tstep', 'keyerror', 'oserror'])), n]
+        return ['ok', draw(S_(['plain', 'plain', 'plain', 'long', 'unicode', 'clone'] * 4 + ['cyclic'])), n]
     sub = lambda mf: gen_spec(draw, d - 1, mf, counter)
     if k in ('tuple', 'pipe'):
         m = draw(st.integers(1, 3))
@@ -213,7 +221,7 @@ def build(r):
             return 'missing%d' % n
         if kind == 'tstep':
             return T['nope%d' % n]
-        if kind in ('glomerror', 'valueerror'):
+        if kind in ('glomerror', 'valueerror', 'keyerror', 'oserror'):
             return Probe(n, kind)
         if kind == 'check':
             return Check(type=(int, type('Marker%d' % n, (), {})))
@@ -306,7 +314,10 @@ def trace_tree(spec, target):
 
 
 def fmtval(v, maxlen):
-    s = bbrepr(v).replace("\\'", "'")
+    try:
+        s = bbrepr(v).replace("\\'", "'")
+    except RecursionError:
+        s = repr(v).replace("\\'", "'")        # a container that contains itself: the builtin repr marks the cycle
     return s
 
 
@@ -646,6 +657,10 @@ def check(recipe, ctx):
     recovered = 'coalesce-default' in repr(r) or any(n.exc is None and any(x.exc is not None for x in n.subtree())
                                                       for n in root.children[0].subtree())
     ctx.label('depth-%d' % min(depth, 6))
+    if "'cyclic'" in repr(r):
+        ctx.label('target-contains-itself')
+    if "'keyerror'" in repr(r) or "'oserror'" in repr(r):
+        ctx.label('exception-with-own-str')
     if branchy:
         ctx.label('branch-point')
     if recovered:
@@ -931,7 +946,7 @@ CLASSIFIERS = {'F36-call-args-lazy': is_call_args_lazy}
 
 SUBS = [
     Sub('trace', check, gen=gen, quick=3000, thorough=10000,
-        floors={'branch-point': 0.1, 'recovered-branch': 0.1, 'depth-3': 0.05, 'linear-exact': 0.1}),
+        floors={'branch-point': 0.1, 'recovered-branch': 0.1, 'depth-3': 0.05, 'linear-exact': 0.1, 'target-contains-itself': 0.01, 'exception-with-own-str': 0.03}),
     Sub('lazy', check_lazy, gen=gen_lazy, quick=800, thorough=3000, floors={'steps-between': 0.2, 'lazy-map': 0.05, 'fails-after-consumer': 0.15}),
     Sub('enclosed', check_enclosed, gen=gen_enclosed, quick=400, thorough=1500),
     fuzzrun.fuzz_sub('fuzz-trace', 'hyp:c05:trace', runs=30000, campaigns=4, replay_sub='trace'),
